@@ -83,7 +83,7 @@ DEFAULT_SCHEMAS = "[default_1min]\npattern = .*\nretentions = 60s:1d\n"
 
 
 def boot(program='carbon-cache', conf=None, files=None, standins=(), database='verifmem',
-         instance=None, import_service=True):
+         instance=None, import_service=True, instance_conf=None):
   """Boot `program` ('carbon-cache' | 'carbon-relay' | 'carbon-aggregator' | 'carbon-aggregator-cache').
 
   conf:  dict of carbon.conf keys for the program's section.
@@ -117,7 +117,10 @@ def boot(program='carbon-cache', conf=None, files=None, standins=(), database='v
   c.setdefault('LOG_LISTENER_CONN_SUCCESS', False)
   c.setdefault('ENABLE_LOGROTATION', False)
   # carbon-aggregator-cache reads section [aggregator-cache]
-  text = _ini([(section, c)])
+  secs = [(section, c)]
+  if instance is not None and instance_conf:
+    secs.append(('%s:%s' % (section, instance), dict(instance_conf)))     # per-instance overrides, as in carbon.conf.example
+  text = _ini(secs)
   with open(os.path.join(conf_dir, 'carbon.conf'), 'w') as f:
     f.write(text)
   fl = dict(files or {})
